@@ -21,7 +21,11 @@ CLAIMED["C03"] = dict(cat="exploration", ref="DESIGN.md 3.3",
    text="For each generated experiment (sampled sharing pattern of learner/environment/evaluator objects, shared chunk()/cache() prefixes) with component failures injected at sampled positions, the together-run under a sampled configuration and seeded schedule is compared triple by triple with the alone-run of that triple on pristine objects; additionally a triple during whose evaluation a failure fired must have no rows, the failure must be in the log, and shared learner objects must be unchanged after run().",
    note="Trusted base: as C01; injected failures are functions of the component's own local history; the alone-run uses the same coba code (the independent checks 'failing triple has no rows' and 'exception logged' do not).",
    tech="deterministic simulation: real Experiment.run on simulated workers under a seeded scheduler + component-failure injection, differential (alone vs together) and history oracles")
-PENDING = {k: "claimed in DESIGN.md; check under construction in this round (deterministic-simulation engine exists, driver not yet committed)" for k in ("C02","C04","C05","C07","C12")}
+CLAIMED["C07"] = dict(cat="exploration", ref="DESIGN.md 3.6",
+   text="Conservation oracle over the recorded history: recording evaluators yield generated rows (ragged/homogeneous keys, nested values, NaN/inf, unicode, newlines, non-string keys) and components carry generated params; the experiment runs without a file on simulated workers under a seeded schedule, with a plain file (in-process or written by simulated workers in schedule-dependent record order), with a .gz file, and interrupted at a record boundary then resumed; interaction rows, indices 1..N and parameter tables must equal what the components produced up to the documented normalisation, and all Results / Result.from_file must agree.",
+   note="Trusted base: as C01; the oracle's normalisation is deliberately lenient (1e-5 float tolerance, list==tuple, int==float, absent==None, keys as str); row values JSON-representable, nested dict keys strings, reserved column names unused; one known finding (all rows of a triple empty) is listed in known_findings.json.",
+   tech="deterministic simulation: seeded scheduler over simulated workers + crash at record boundary and restart, conservation oracle against recording components")
+PENDING = {k: "claimed in DESIGN.md; check under construction in this round (deterministic-simulation engine exists, driver not yet committed)" for k in ("C02","C04","C05","C12")}
 NA = {
  "C06": "SequentialCB is a single-threaded loop whose outputs are a pure function of (environment, learner, mode); no schedule, clock, fault or crash point occurs in the property.",
  "C09": "Ordering/selection filters are pure functions of (input sequence, parameters, seed); nothing for a simulator to schedule or fault.",
